@@ -55,6 +55,7 @@ func ResetRun() {
 	rtHook.Store(nil)
 	dialHook.Store(nil)
 	probeTransport.Store(nil)
+	resetFreeWaiters()
 }
 
 // LiveBackground reports how many goroutines started through Go() are still alive.
